@@ -416,8 +416,7 @@ func (e *Engine) checkExit(fi *FuncInfo, o Out, sig *types.Signature) {
 		}
 		switch cl.Kind {
 		case "use":
-			uenv := e.specEnvAt(st, fi.Decl.Body.Rbrace)
-			e.useLemma(cl.Expr, uenv, st, cl.Where)
+			e.useLemma(cl.Expr, env, st, cl.Where, hasTag(cl.Tags, "cond"))
 		case "step":
 			label := fmt.Sprintf("step#%d", nstep)
 			if cl.Label != "" {
@@ -430,7 +429,7 @@ func (e *Engine) checkExit(fi *FuncInfo, o Out, sig *types.Signature) {
 		}
 	}
 	// parameters keep their entry values in specs (Go parameters are mutable; contracts talk about entry values)
-	for _, kind := range []string{"ensures", "guarantees"} {
+	for _, kind := range []string{"ensures", "offers", "guarantees"} {
 		for j, cl := range c.byKind(kind, "") {
 			label := fmt.Sprintf("%s#%d", kind, j)
 			if cl.Label != "" {
